@@ -71,6 +71,14 @@ def _rt(title, rule, quick_runs, thorough_runs, chunk=10):
 
 
 SPECS = {
+    "C01": _rt(
+        "Background failures always stop the daemon",
+        "one runtime per seed: 0-6 bystander payloads, 1-3 failing payloads (flavour x failure kind x registration path x time), seeded thread schedule; "
+        "non-trivial = at least one injected failure actually occurred while the runtime was up; "
+        "distinct = distinct (multiset of (flavour, failure kind, registration), population size, stop mixed in, run mode, schedule-trace hash)",
+        1200,
+        60000,
+    ),
     "C09": _pl(
         "Periodic services act once per interval",
         "one world per seed: a shipped periodic service over recording pools, a generated timed environment script "
